@@ -102,6 +102,8 @@ class Case:
             l.append("printer 1")
         if self.meta.get("key_delay_ms"):
             l.append("key_delay_ms %d" % self.meta["key_delay_ms"])
+        if self.meta.get("between_us"):
+            l.append("between_us %d" % self.meta["between_us"])
         for k in ("highlight", "signals", "paste", "helper_panic_at", "auto_add", "printers", "printers_late", "linger", "stdout_full", "stdin_ro", "preferterm", "stdout_relay", "stdout_close_after", "max_hist", "tab_stop", "indent_size", "prompt_limit", "show_all", "bell", "color_mode"):
             if k in self.meta:
                 l.append("%s %s" % (k, self.meta[k]))
@@ -240,6 +242,10 @@ def run_tty_cases(res, exe, driver, cases, tmp, tag, compare_output=True, rng=No
                 first = [("print_with_keys", lst[0][0], enc([ord(x) for x in lst[0][1]]), ahead)] if ahead else []
                 ev[k] = list(ev.get(k, [])) + first + [("print_nowait", t, enc([ord(x) for x in text])) for (t, text) in (lst[1:] if ahead else lst)] + \
                     [("winch_blocked", w) for w in (c.meta.get("blocked_resizes") or {}).get(k, [])] + [("wait_acks", total)]
+        if c.meta.get("flood"):
+            ev = dict(ev or {})
+            fl = c.meta["flood"]
+            ev[fl["k"]] = list(ev.get(fl["k"], [])) + [("flood", [(t, enc([ord(x) for x in text])) for (t, text) in fl["msgs"]], fl["enters"])]
         jobs.append((exe, c.spec(), ch, c.cols, ev, bool(c.meta.get("sync_keys"))))
     # processes, not threads: the driver polls /proc and must not share a GIL
     import multiprocessing
@@ -256,7 +262,7 @@ def run_tty_cases(res, exe, driver, cases, tmp, tag, compare_output=True, rng=No
         impl = canon_impl(raw)
         model = canon_model(m) if m is not None else None
         # the hang-up that ends a script is not part of the comparison: drop the reads it ends
-        if model is not None and not c.meta.get("events") and not c.meta.get("bursts") and not c.meta.get("no_model"):
+        if model is not None and not c.meta.get("events") and not c.meta.get("bursts") and not c.meta.get("no_model") and not c.meta.get("flood"):
             # (prints at quiescent points are part of the model's input; signals and racing bursts are not)
             # what is written around a hang-up is lost with the terminal: compare those reads without output
             nw = lambda rs: [r.split(" W=")[0] if r.startswith("O=hangup") else r for r in rs]
